@@ -9,6 +9,11 @@ CHECKS = {
    text="Every op sequence (set/update/delete on the bare DB and in two interleaved transactions, commit/abort in any order, replicated writes through the kv observer, table reopen/bulk populate) up to the depth bound over 2-3 colliding keys and 2 indexed values is executed on the real gorp.Table; in every distinct state ~800 filter trees are evaluated through the secondary indexes and through a full scan in every transactional view and compared with a map-based model. Exhaustive within the stated alphabet and depth.",
    note="memkv (in-memory pebble) as storage; go1.26.8 instead of the repo's go1.26.3 toolchain; state merging on (committed rows, per-tx overlays) is sound because every query result is re-derived from the real objects in each new state; true parallel commits are not explored (operation-granularity interleaving only).",
    design="3/C17"),
+ "C16": dict(level="model_checking", engine="seqx",
+   technique="explicit-state BFS over the real ontology writer/retriever with a graph reference model; both directions of the define-relationship iff judged",
+   text="Every sequence of define/delete resource, define/delete relationship (all ordered pairs incl. self-edges), delete-many and one-to-many, each executed directly, in a committed and in an aborted transaction (plus multi-op transactions), over identifiers that are string prefixes/suffixes of one another, up to the depth bound; after every step the raw tables equal the model, the graph is acyclic and parent/child/2-hop/descendant traversals equal a plain graph search in the committed view and in the open transaction.",
+   note="memkv storage; go1.26.8 toolchain; relationship types share one graph for cycle detection (what the implementation's descendant walk does); a fatal runtime error of the code under test is caught by the re-exec supervisor and replayed.",
+   design="3/C16"),
 }
 NOT_YET = {}
 props = [json.loads(l) for l in open(os.path.join(HERE, "properties.jsonl"))]
